@@ -965,8 +965,10 @@ func rulesC03(r *Run) {
 	}
 	ruleBlockEndRouting(r, "R4")
 	ruleFinalBlocks(r, "R4")
+	// a block recovery has just found Failed stops the plan like any other failed block (round-3 seed C03-6)
+	ruleRepairThenClassify(r, "R4", smKey("fixPlan"), smKey("fixBlock"), "workflow.Block")
 	ruleExamineBypasses(r, "R4")
-	r.Expect("R4", 5)
+	r.Expect("R4", 6)
 
 	// ---- R5: "… or one of its checks failed": a failing block-level check reaches the block's verdict
 	// (the same constructs C07 decides for the continuous checks, and the gate/ post-check routing)
